@@ -380,8 +380,8 @@ def run(ctx):
            what="load_from_file on probe files: %s" % bad10[:3])
 
     # ---- R12.11: option symbols of a default are turned into their numbers - all of them
-    ctx.rule("R12.11", "CANONICALISE: canonicalize_arg_vals, evaluated on 10 small value lists (scalar and array defaults, known and unknown symbols, a signature shorter than the list), "
-                       "converts every option symbol whose signature position takes an integer - each element of an array default against the same signature - and returns the number it could not convert; "
+    ctx.rule("R12.11", "CANONICALISE: canonicalize_arg_vals, evaluated on 13 small value lists (scalar and array defaults, known and unknown symbols, a signature shorter than the list, a number where the port takes a char), "
+                       "converts every option symbol whose signature position takes an integer (each element of an array default against the same signature) and a number whose position takes a char, and returns the number it could not convert; "
                        "a default left half-converted never equals the run-time value and the port is saved although untouched")
     from ..rules import canon as CN
     up11 = ctx.ast("ports.cpp")
@@ -391,6 +391,86 @@ def run(ctx):
         raise AnalysisBroken("R12.11: canonicalize_arg_vals not evaluable: %s" % e)
     ctx.ob("R12.11", "canonicalize_arg_vals", not bad11, site=A.where(up11.function("canonicalize_arg_vals")), detail={"probes": n11, "mismatches": bad11[:3]},
            what="canonicalize_arg_vals, evaluated: %s" % [{k_: b_[k_] for k_ in ("probe", "afterwards", "returns", "expected", "expected_return")} for b_ in bad11[:2]])
+
+    # ---- R12.13: every value of a char parameter has a spelling in a savefile
+    ctx.rule("R12.13", "CHAR-SPELLING: the case of rtosc_print_arg_val that prints a char, evaluated for every value 0..127 with a model of its formatted write, produces a text without a NUL byte inside "
+                       "(a savefile is a C string: a raw NUL ends the line and the file cannot be loaded)")
+    from ..rules import codec as C13c
+    upf = ctx.ast("pretty-format.c")
+    fpr = upf.function("rtosc_print_arg_val")
+    case_c = None
+    for sw_ in C13c.find_switches(upf.body(fpr)):
+        tab_ = C13c.case_table(sw_)
+        if ord("c") in tab_ and ord("i") in tab_ and ord("s") in tab_:
+            case_c = tab_[ord("c")]
+    ctx.require(case_c is not None, "R12.13: the printer's case for chars was not found")
+    bad13 = []
+    for v13 in range(128):
+        texts = []
+
+        def hook13(n_, ev_, v13=v13, texts=texts):
+            k_ = n_.get("kind")
+            if k_ == "MemberExpr" and n_.get("name") in ("i", "c") and A.kids(n_):
+                return v13
+            if k_ == "StringLiteral":
+                return A.string_literal(n_)
+            if k_ == "ImplicitCastExpr" and n_.get("castKind") == "ArrayToPointerDecay" and A.kids(n_) and A.string_literal(A.kids(n_)[0]) is not None:
+                return A.string_literal(A.kids(n_)[0])
+            if k_ == "CallExpr" and A.callee_name(n_) in ("asnprintf", "snprintf"):
+                a_ = A.kids(n_)[1:]
+                fmt = ev_.ev(a_[2])
+                vals_ = [ev_.ev(x_) for x_ in a_[3:]]
+                if not isinstance(fmt, str):
+                    raise FD.Unknown("format %r" % (fmt,), n_)
+                out_, i_ = [], 0
+                while i_ < len(fmt):
+                    if fmt[i_] == "%" and i_ + 1 < len(fmt):
+                        c_ = fmt[i_ + 1]
+                        if c_ == "%":
+                            out_.append("%")
+                        elif c_ == "s":
+                            x_ = vals_.pop(0)
+                            if not isinstance(x_, str):
+                                raise FD.Unknown("%%s of %r" % (x_,), n_)
+                            out_.append(x_)
+                        elif c_ == "c":
+                            out_.append(chr(vals_.pop(0) & 0xff))
+                        elif c_ in "di":
+                            out_.append(str(vals_.pop(0)))
+                        else:
+                            raise FD.Unknown("conversion %%%s" % c_, n_)
+                        i_ += 2
+                    else:
+                        out_.append(fmt[i_])
+                        i_ += 1
+                texts.append("".join(out_))
+                return len(texts[-1])
+            if k_ == "CallExpr":
+                nm_ = A.callee_name(n_)
+                fs_ = [f_ for f_ in upf.functions.get(nm_ or "", []) if upf.body(f_) is not None]
+                if len(fs_) == 1:
+                    return ev_.call_function(upf, fs_[0], [ev_.ev(x_) for x_ in A.kids(n_)[1:]])
+                raise FD.Unknown("call to %s" % nm_, n_)
+            if k_ == "DeclRefExpr" and (n_.get("referencedDecl") or {}).get("id") not in ev_.env and (n_.get("referencedDecl") or {}).get("kind") in ("ParmVarDecl", "VarDecl") \
+                    and FD.ctype(A.qtype(n_))[0] in ("int", "ptr"):
+                return 4096          # buffer, its size: any value
+            return NotImplemented
+        ev13 = FD.Eval(node_hook=hook13, max_steps=3000)
+        try:
+            for st_ in case_c:
+                try:
+                    ev13.run(st_)
+                except FD._Break:
+                    break
+        except FD.Unknown as e:
+            raise AnalysisBroken("R12.13: the printer's char case is not evaluable for the value %d: %s" % (v13, e))
+        txt13 = "".join(texts)
+        if not txt13 or "\0" in txt13:
+            bad13.append({"value": v13, "printed": txt13.encode("latin-1", "replace").hex()})
+    ctx.ob("R12.13", "chars 0..127", not bad13, site=A.where(case_c[0]) if case_c else A.where(fpr), detail={"values": 128, "unprintable": bad13[:4]},
+           key="R12.13:%s" % ",".join(str(b_["value"]) for b_ in bad13[:8]),
+           what="the printer writes the char value(s) %s with a raw NUL byte (hex %s): the savefile line of a char parameter with that value ends there and the file is rejected on loading" % (
+               [b_["value"] for b_ in bad13[:8]], [b_["printed"] for b_ in bad13[:3]]))
 
     # ---- R12.12: which default get_default_value answers with
     ctx.rule("R12.12", "DEFAULT-LOOKUP: get_default_value, interpreted on a model application (byte memory for its buffers and C string calls, the run-time query printing the selector's value behind the path it is handed, "
